@@ -572,6 +572,8 @@ func runChild(id string, cfg propCfg, vmon, work, tier string, seed uint64, batc
 	}
 	results = nil // a partial result of a crashed child is not counted
 	switch {
+	case strings.Contains(logs, "HANG-VERDICT: circling"):
+		return results, []violation{{Signature: "hang", Detail: "the stream handler delivered more messages than its input has bytes: it is going round in circles and will never finish\n" + tail, Case: caseJSON}}
 	case strings.Contains(logs, "HANG-VERDICT: endless"):
 		// one case ran for more than 10^4 times the median case time; confirm by
 		// re-running that case alone in a fresh process before calling it a violation
